@@ -13,7 +13,9 @@
   compile-time path 1449-1468 which calls the same `escape`).  `bind` passes a value on unchanged: a macro argument,
   `{% set x = e %}`, a loop variable, an imported name.  Includes, imports and inheritance put bodies in
   sequence (`seq`).  A filter block `{% filter f(a) %}B{% endfilter %}` is `emit (f (blk B) a)` and a filtered set block
-  `{% set x | f(a) %}B{% endset %}` binds `esc (f (blk B) a)` (compiler.py `visit_FilterBlock`, `visit_AssignBlock`).
+  `{% set x | f(a) %}B{% endset %}` binds `esc (f (blk B) a)` (compiler.py `visit_FilterBlock`, `visit_AssignBlock`).  A chain
+  `{% filter f(a)|g(b) %}B{% endfilter %}` is the composition `emit (g (f (blk B) a) b)`: the buffer enters the FIRST filter
+  as Markup, every later filter receives the previous result (compiler.py `visit_Filter` recursing into `node.node`).
 -/
 import JinjaV.Model.Escape
 import JinjaV.Model.HtmlFilt
